@@ -1,4 +1,4 @@
-import IgrisModel.C04.Model
+import IgrisModel.C04.Buf
 namespace Igris.Gstuff
 open Igris.Proto
 
@@ -23,6 +23,45 @@ def lfeedTrace : LRecv → List Byte → List Char × List (List Byte)
     -- legacy convention: the line still holds the CRC byte; the packet is the line without it
     (stsChar s :: ss, if s = NEWPACKAGE then r1.line.dropLast :: ps else ps)
 
+/-- the same traces computed on the BUFFER-LEVEL model (C04/Buf.lean): this is what the
+driver runs; `none` = the model touched memory outside the receive buffer.  At every
+NEWPACKAGE the user reads the packet through `cstr()` / `size()` (which writes the
+terminator `buf[len] = 0`). -/
+def bfeedTrace (ctx : Ctx) : BRecv → List Byte → Option (List Char × List (List Byte))
+  | _, [] => some ([], [])
+  | r, c :: cs =>
+    match bnewchar ctx r c with
+    | none => none
+    | some (r1, s) =>
+      match (if s = NEWPACKAGE then r1.cstr.map (fun x => (x.1, [x.2])) else some (r1, [])) with
+      | none => none
+      | some (r2, pk) =>
+        match bfeedTrace ctx r2 cs with
+        | none => none
+        | some (ss, ps) => some (stsChar s :: ss, pk ++ ps)
+
+/-- legacy: `sline_getline` / `sline_size`; the packet is the line without its last byte (the CRC) -/
+def blfeedTrace : BLRecv → List Byte → Option (List Char × List (List Byte))
+  | _, [] => some ([], [])
+  | r, c :: cs =>
+    match blnewchar r c with
+    | none => none
+    | some (r1, s) =>
+      match (if s = NEWPACKAGE then r1.getline.map (fun x => (x.1, [x.2.dropLast])) else some (r1, [])) with
+      | none => none
+      | some (r2, pk) =>
+        match blfeedTrace r2 cs with
+        | none => none
+        | some (ss, ps) => some (stsChar s :: ss, pk ++ ps)
+
+/-- legacy trace with the lines exactly as the API hands them over (CRC byte included) -/
+def lfeedTraceRaw : LRecv → List Byte → List Char × List (List Byte)
+  | _, [] => ([], [])
+  | r, c :: cs =>
+    let (r1, s) := lnewchar r c
+    let (ss, ps) := lfeedTraceRaw r1 cs
+    (stsChar s :: ss, if s = NEWPACKAGE then r1.getline :: ps else ps)
+
 def showTrace (t : List Char × List (List Byte)) : String :=
   (if t.1.isEmpty then "-" else String.ofList t.1) ++ " " ++
   (if t.2.isEmpty then "none" else ",".intercalate (t.2.map bytesHex))
@@ -37,10 +76,16 @@ def encodeBy (codec : String) (pieces : List (List Byte)) : Option (List Byte) :
   | "leg" => some (gstuffingLeg pieces.flatten)
   | c => (ctxOf? c).map fun ctx => gstuffingV ctx pieces
 
+def showTrace? : Option (List Char × List (List Byte)) → String
+  | some t => showTrace t
+  | none => "fault"
+
+/-- receive buffer of exactly `cap` bytes, `init(buf, cap)` / `setbuf_v1(buf, cap)` -/
 def feedBy (codec : String) (cap : Nat) (stream : List Byte) : Option String :=
+  let buf : List Byte := List.replicate cap 0xA5
   match codec with
-  | "leg" => some (showTrace (lfeedTrace (LRecv.init cap) stream))
-  | c => (ctxOf? c).map fun ctx => showTrace (feedTrace ctx (Recv.init cap) stream)
+  | "leg" => some (showTrace? (blfeedTrace (BLRecv.init buf (BitVec.ofNat 32 cap)) stream))
+  | c => (ctxOf? c).map fun ctx => showTrace? (bfeedTrace ctx (BRecv.init buf (BitVec.ofNat 32 cap)) stream)
 
 def ctxHex (c : Ctx) : String := bytesHex [c.start, c.stop, c.stub, c.stubStart, c.stubStop, c.stubStub]
 
@@ -56,14 +101,28 @@ def stepLine (_ : Unit) (line : String) : Unit × String :=
     | "encvec" :: codec :: pieces => do
         let ps ← pieces.mapM parseBytes?
         let ctx ← ctxOf? codec
-        match gstuffingVec ctx ps with
+        match gstuffingVecW ctx ps with
         | some out => pure (bytesHex out)
         | none => pure "fault"
+    | "vecbuf" :: codec :: pieces => do
+        -- size of the buffer the self-sizing overload allocates (`ret.resize(sz * 2 + 4)`)
+        let ps ← pieces.mapM parseBytes?
+        let _ ← ctxOf? codec
+        pure (toString (vecBufSize (ps.map List.length).sum))
+    | ["rtraw", "leg", cap, p] => do
+        let p ← parseBytes? p
+        let cap ← cap.toNat?
+        pure (showTrace (lfeedTraceRaw (LRecv.init cap) (gstuffingLeg p)))
     | ["rt", codec, cap, p] => do
         let p ← parseBytes? p
         let cap ← cap.toNat?
         let out ← encodeBy codec [p]
         feedBy codec cap out
+    | ["feednb", codec, s] => do
+        -- `gstuff_autorecv(ctx)` without `setbuf`: sline {buf = NULL, cap = 0}
+        let s ← parseBytes? s
+        let ctx ← ctxOf? codec
+        pure (showTrace? (bfeedTrace ctx BRecv.noBuf s))
     | [op, codec, cap, s] => do
         if op ≠ "feed" ∧ op ≠ "feedstrict" then none else
         let s ← parseBytes? s
